@@ -26,10 +26,10 @@ From VF Require Import Base Gen_Errors Fmt Lexer Mnemonic Conv Conv_proofs.
 Local Open Scope Q_scope."
 python3 tools/mkprops.py C07 "Integer parameters convert to the exactly rounded value or a range error" "$QH" Conv_proofs:int_conv_correct,round_half_away_nearest,round_half_away_none,nr1_exact,nr1_range,int_result_in_range,nondec_exact,int_keywords,int_suffix_rejected,int_other_rejected,accept_int "$FL" Float_proofs:dec2sf_correct_f64,dec2sf_correct_f32
 python3 tools/mkprops.py C08 "Float, boolean and keyword parameters convert to the exact denoted value" "$QH" Conv_proofs:float_conv_dec,float_keywords,bool_numeric,bool_numeric_total,bool_onoff,accept_float,accept_bool,accept_bytes,conv_error_codes,conv_total "$FL" Float_proofs:dec2sf_correct_f64,dec2sf_correct_f32,dec2sf_core_correct_f64,dec2sf_core_correct_f32,dec_value_sign
-python3 tools/mkprops.py C09 "Response data is well-formed and denotes exactly the value that was formatted" "From VF Require Import Base Gen_Errors Gen_Consts ErrTable Fmt Lexer Grammar Response Conv Fmt_proofs.
-Open Scope N_scope." Fmt_proofs:int_text,fmt_N_digits,int_dec_rt,radix_rt,bool_rt,string_text,string_non_ascii,string_rt,string_exact_when_no_quote,block_text,block_too_long,block_rt,char_rt,expr_rt,error_text,error_rt,list_empty,list_text,int_list_rt
-python3 tools/mkprops.py C10 "Responses are framed exactly: ; between units, , between data, one final NL" "From VF Require Import Base Gen_Errors Gen_Consts Fmt Lexer Grammar Response Tree HeaderSpec MessageSpec Resp_proofs Message_proofs Message_proofs2.
-Open Scope N_scope." Resp_proofs:framing,unit_text_structure,event_writes_nothing Message_proofs2:spec_message_framing,message_semantics_empty,message_semantics_trailing_separator Message_proofs:message_semantics --section "$SEC"
+python3 tools/mkprops.py C09 "Response data is well-formed and denotes exactly the value that was formatted" "From VF Require Import Base Gen_Errors Gen_Consts ErrTable Fmt Lexer Grammar Response Conv Fmt_proofs ResponseDecoder ResponseDecoder_proofs.
+Open Scope N_scope." Fmt_proofs:int_text,fmt_N_digits,int_dec_rt,radix_rt,bool_rt,string_text,string_non_ascii,string_rt,string_exact_when_no_quote,block_text,block_too_long,block_rt,char_rt,expr_rt,error_text,error_rt,list_empty,list_text,int_list_rt ResponseDecoder_proofs:response_decodes,emit_message_text,unit_count_preserved,item_count_preserved,separators_inside_string_are_data,separators_inside_block_are_data,decode_response_fuel
+python3 tools/mkprops.py C10 "Responses are framed exactly: ; between units, , between data, one final NL" "From VF Require Import Base Gen_Errors Gen_Consts Fmt Lexer Grammar Response Tree HeaderSpec MessageSpec Resp_proofs Message_proofs Message_proofs2 ResponseDecoder ResponseDecoder_proofs.
+Open Scope N_scope." Resp_proofs:framing,unit_text_structure,event_writes_nothing Message_proofs2:spec_message_framing,message_semantics_empty,message_semantics_trailing_separator Message_proofs:message_semantics ResponseDecoder_proofs:response_decodes,framed_run_decodes,unit_count_preserved,item_count_preserved --section "$SEC"
 python3 tools/mkprops.py C11 "Fixed-capacity, allocation-free operation: overflow is an error, never a panic" "From VF Require Import Base Gen_Errors Gen_Consts Fmt Lexer Response Tree Resp_proofs Tree_proofs.
 Open Scope N_scope." Resp_proofs:run_never_exceeds_capacity,cap_fits,cap_prefix,cap_overflow,push_fits,push_error_is_225,push_appends Tree_proofs:run_total --section "$SEC"
 python3 tools/mkprops.py C17 "numeric_value parameters resolve MIN/MAX/DEF and never leave [min,max] (for ANY carrier type with a possibly partial order)" "From VF Require Import Base Gen_Errors Lexer Mnemonic MnemonicSpec Numeric Numeric_proofs." Numeric_proofs:keyword_tests,nv_keywords,nv_other_elements,nv_value_spec,build_fields,finish_max,finish_min,finish_default,finish_up_down,finish_value,value_in_range,resolved_in_range,out_of_range_only_for_values --section "Context {T : Type}.
